@@ -549,7 +549,23 @@ def handleScan (call obs : String) : String :=
     | _, _, _, _, _ => "BAD scan fields"
   | _, _, _, _, _ => "BAD scan query"
 
+/-- `stress`: G goroutines sending in true parallel on one connection (harness/c05stress.go).
+The judgement is the property's own clause on the decoded stream: whole frames, call ids unique
+on the connection, every call written exactly once. -/
+def handleStress (kvs : List String) : String :=
+  let get (k : String) : Option String :=
+    (kvs.find? (fun s => s.startsWith (k ++ "="))).map (fun s => String.ofList (s.toList.drop (k.length + 1)))
+  match get "stream", get "dupids", get "missing", get "twice", get "senders" with
+  | some st, some d, some m, some t, some g =>
+    if st ≠ "ok" then s!"SPEC key=stream-{st} (frames of parallel senders)"
+    else if d ≠ "0" then s!"SPEC key=call-id-not-unique-on-connection count={d}"
+    else if t ≠ "0" then s!"SPEC key=call-written-twice count={t}"
+    else if m ≠ "0" then s!"SPEC key=call-never-written count={m}"
+    else s!"OK tags=stress,senders{g}"
+  | _, _, _, _, _ => "BAD stress fields"
+
 def handle : List String → String
+  | "stress" :: kvs => handleStress kvs
   | "stream" :: codec :: units :: helloTok :: recs => handleStream codec units helloTok recs
   | ["multi", names, calls, perm, obsRA, obsCbs, obsSize] =>
     handleMulti names calls perm obsRA obsCbs obsSize
